@@ -69,7 +69,7 @@ Definition seg_comp (s : str) : list comp :=
   | _ => [CNormal s]
   end.
 (* Path::components() *)
-Definition comps (p : str) : list comp :=
+Definition pcomps (p : str) : list comp :=
   let segs := split_on 47 p in
   let head := match p with
               | 47 :: _ => [CRoot]
@@ -84,9 +84,9 @@ Fixpoint comps_eqb (a b : list comp) : bool :=
   | x :: a', y :: b' => comp_eqb x y && comps_eqb a' b'
   | _, _ => false
   end.
-Definition path_eqb (a b : str) : bool := comps_eqb (comps a) (comps b).
+Definition path_eqb (a b : str) : bool := comps_eqb (pcomps a) (pcomps b).
 Definition file_name (p : str) : option str :=
-  match last (comps p) CRoot with CNormal s => Some s | _ => None end.
+  match last (pcomps p) CRoot with CNormal s => Some s | _ => None end.
 (* the text of one component, as Path::iter() yields it *)
 Definition comp_text (c : comp) : str :=
   match c with CRoot => [47] | CCur => [46] | CParent => [46; 46] | CNormal s => s end.
@@ -222,7 +222,7 @@ Fixpoint find_walk (m : list dentry) (cs : list comp) (file : str) : option dent
       match get_entry m file' with Some e => Some e | None => find_walk m r file' end
   end.
 Definition find_entry (d : distinfo) (p : str) : option dentry :=
-  find_walk (match classify p with Distfile => dists d | Patchfile => patches d end) (List.rev (comps p)) [].
+  find_walk (match classify p with Distfile => dists d | Patchfile => patches d end) (List.rev (pcomps p)) [].
 
 Inductive verr := VIo | VNotFound | VSize (expected actual : Z) | VMissingSize
                 | VChecksum (a : alg) (expected : str) (preimage : str) | VMissingChecksum.
